@@ -14,8 +14,29 @@ mod sigtext;
 use sigtext::*;
 
 fn label(i: usize) -> Label { Label { ty: if i % 3 == 0 { Type::Generic } else { Type::Specified }, class: None, name: format!("l{}", i), flavor: None } }
-fn r_entries<S>(toks: &[&str], f: fn(&str) -> S) -> Vec<(Label, Vec<S>)> {
-    toks.iter().enumerate().map(|(i, t)| (label(i), if *t == "." { vec![] } else { t.split('/').map(f).collect() })).collect()
+/// compact forms (grammar: coq/Extract/EC02.v): `<n>@<entry>|<entry>|…` = that sequence of labels n times; inside an
+/// entry `<run>~<run>~…` with run = `<sig>/<sig>/…` or `<n>^<sig>/<sig>/…` (that list n times)
+fn r_entry<S: Clone>(t: &str, f: fn(&str) -> S) -> Vec<S> {
+    if t == "." { return vec![]; }
+    let mut v = vec![];
+    for run in t.split('~') {
+        let (n, sigs) = match run.split_once('^') { Some((c, s)) => (c.parse::<usize>().expect("count"), s), None => (1, run) };
+        assert!(n <= 300000, "count");
+        let l: Vec<S> = sigs.split('/').map(f).collect();
+        for _ in 0..n { v.extend(l.iter().cloned()); }
+    }
+    v
+}
+fn r_entries<S: Clone>(toks: &[&str], f: fn(&str) -> S) -> Vec<(Label, Vec<S>)> {
+    let mut out: Vec<(Label, Vec<S>)> = vec![];
+    for t in toks {
+        let (n, l): (usize, Vec<Vec<S>>) = match t.split_once('@') {
+            Some((c, es)) => (c.parse::<usize>().expect("count"), es.split('|').map(|e| r_entry(e, f)).collect()),
+            None => (1, vec![r_entry(t, f)]) };
+        assert!(n <= 300000, "count");
+        for _ in 0..n { for e in &l { let i = out.len(); out.push((label(i), e.clone())); } }
+    }
+    out
 }
 fn empty_db() -> Database {
     Database { classes: vec![], mtu: vec![], ua_os: vec![], tcp_request: Default::default(), tcp_response: Default::default(),
@@ -246,6 +267,80 @@ fn many_labels_cases(r: &mut Rng, out: &mut Vec<String>) {
     }
 }
 
+// ---------------- beyond 2^16 positions: more than 65 536 signatures under one label / more than 65 536 labels ----------------
+/// `len` filler items written compactly from the cyclic group `g`: `<len / |g|><rep><g joined by sep>` plus the first
+/// `len % |g|` items of `g` (pieces to be joined by the caller)
+fn filler(g: &[String], len: usize, rep: char, sep: &str) -> Vec<String> {
+    let mut v = vec![];
+    if len / g.len() > 0 { v.push(format!("{}{}{}", len / g.len(), rep, g.join(sep))); }
+    if len % g.len() > 0 { v.push(g[..len % g.len()].join(if rep == '^' { "/" } else { " " })); }
+    v
+}
+/// positions worth aiming at beyond the u16 boundary (winner position, alias = position mod 65 536)
+fn wide_targets(r: &mut Rng, n: usize) -> Vec<usize> {
+    let mut t = vec![65536usize, 65537, 2 * 65536 + r.range(1, 300) as usize];
+    t.truncate(n.min(3));
+    for _ in 3..n { t.push(match r.below(3) { 0 => 65535, 1 => 65536 + r.range(2, 4000) as usize, _ => 2 * 65536 }); }
+    t
+}
+/// one case: `items[alias]` = decoy (strictly worse than the target for the aimed observation, or absent), `items[pos]` =
+/// target, filler everywhere else, 0-2 further items behind the target.  `one_label`: items are the signatures of a
+/// single label (a small label before it sometimes); otherwise every item is a label of its own.
+fn wide_layout(r: &mut Rng, g: &[String], pos: usize, decoy: Option<String>, target: String, tail: Vec<String>, one_label: bool, lead: Option<String>) -> String {
+    let alias = pos % 65536;
+    let (rep, sep) = if one_label { ('^', "/") } else { ('@', "|") };
+    let mut pieces: Vec<String> = vec![];
+    match decoy {
+        Some(d) if alias < pos => { pieces.extend(filler(g, alias, rep, sep)); pieces.push(d); pieces.extend(filler(g, pos - alias - 1, rep, sep)); }
+        _ => pieces.extend(filler(g, pos, rep, sep)),
+    }
+    pieces.push(target); pieces.extend(tail);
+    let _ = r;
+    if one_label { match lead { Some(l) => format!("{} {}", l, pieces.join("~")), None => pieces.join("~") } } else { pieces.join(" ") }
+}
+fn wide_tcp_cases(r: &mut Rng, n_one: usize, n_many: usize, out: &mut Vec<String>) {
+    let base = r_tcp("4:v64:0:1460:s4:7:m,k,t,n,w:0,1:0");
+    // filler: 256 signatures with 256 different option layouts (256 index buckets, none of them the target's)
+    let fsigs: Vec<String> = (0..256).map(|j| { let mut s = base.clone(); s.olayout = vec![TcpOption::Mss, TcpOption::Unknown(j as u8), TcpOption::Nop]; s.mss = Some(500 + j as u16); p_tcp(&s) }).collect();
+    let mut flabels: Vec<String> = fsigs.clone();
+    for (j, l) in flabels.iter_mut().enumerate() { if j % 5 == 1 { *l = ".".into(); } }
+    let empties = vec![".".to_string()];
+    for (k, pos) in wide_targets(r, n_one).into_iter().chain(wide_targets(r, n_many)).enumerate() {
+        let one_label = k < n_one;
+        let variant = r.below(2);
+        let decoy = crowd_tcp_sig(r, &base, variant, 1);
+        let dis = r.chance(1, 3);
+        // the aimed observation must be accepted by the target (a wildcard target met by an IPv6 observation is not)
+        let (mut target, mut o) = (base.clone(), base.clone());
+        for _ in 0..16 { target = crowd_tcp_sig(r, &base, variant, 2); o = tcp_aimed(r, &target, dis); if target.calculate_distance(&to_obs(&o)).is_some() { break; } }
+        let dk = (k as u64 + r.below(2)) % 3;               // 0: decoy at the alias position, 1: none (filler there), 2: decoy, and pos is past the first wrap
+        let d = if dk == 1 { None } else { Some(p_tcp(&decoy)) };
+        let tail: Vec<String> = (0..r.below(3)).map(|i| p_tcp(&crowd_tcp_sig(r, &base, variant, 3 + i as usize))).collect();
+        let g: &[String] = if one_label { &fsigs } else if r.chance(1, 2) { &flabels } else { &empties };
+        let lead = if r.chance(1, 2) { Some(p_tcp(&crowd_tcp_sig(r, &base, variant, 9))) } else { None };
+        out.push(format!("{} {} {}", if k % 2 == 0 { "T" } else { "U" }, p_tcp(&o), wide_layout(r, g, pos, d, p_tcp(&target), tail, one_label, lead)));
+    }
+}
+fn wide_http_cases(r: &mut Rng, n_one: usize, n_many: usize, out: &mut Vec<String>) {
+    // filler: versions 1.0 / 1.1 / 3 only (three index buckets); target, decoy and observation live in the HTTP/2 bucket
+    let fsigs: Vec<String> = [Version::V10, Version::V11, Version::V30].iter().enumerate().map(|(j, v)| { let mut s = crowd_http_sig(r, 0, 1000 + j); s.version = *v; p_http(&s) }).collect();
+    let flabels: Vec<String> = vec![fsigs[0].clone(), ".".into(), fsigs[1].clone(), ".".into(), ".".into(), fsigs[2].clone(), ".".into(), ".".into()];
+    let empties = vec![".".to_string()];
+    for (k, pos) in wide_targets(r, n_one).into_iter().chain(wide_targets(r, n_many)).enumerate() {
+        let one_label = k < n_one;
+        let variant = r.below(3);
+        let mut target = crowd_http_sig(r, variant, 2); target.version = Version::V20;
+        let mut decoy = crowd_http_sig(r, variant, 1); decoy.version = if r.chance(1, 2) { Version::V20 } else { Version::Any };
+        let dis = variant < 2 && r.chance(1, 3); let o = http_aimed(r, &target, dis);
+        let dk = (k as u64 + r.below(2)) % 3;
+        let d = if dk == 1 { None } else { Some(p_http(&decoy)) };
+        let tail: Vec<String> = (0..r.below(3)).map(|i| { let mut s = crowd_http_sig(r, variant, 3 + i as usize); s.version = Version::V20; p_http(&s) }).collect();
+        let g: &[String] = if one_label { &fsigs } else if r.chance(1, 2) { &flabels } else { &empties };
+        let lead = if r.chance(1, 2) { let mut s = crowd_http_sig(r, variant, 9); s.version = Version::V20; Some(p_http(&s)) } else { None };
+        out.push(format!("{} {} {}", if k % 2 == 0 { "H" } else { "R" }, p_http(&o), wide_layout(r, g, pos, d, p_http(&target), tail, one_label, lead)));
+    }
+}
+
 fn gen(r: &mut Rng, tier: &Tier, out: &mut Vec<String>) {
     // ---- stream 1: random databases x observations derived from their entries ----
     for _ in 0..tier.scale(700, 5000) {
@@ -337,6 +432,17 @@ fn gen(r: &mut Rng, tier: &Tier, out: &mut Vec<String>) {
         crowd_http_cases(r, v, &sizes, out);
         many_labels_cases(r, out);
     }
+    // ---- stream 5: positions beyond 2^16 (compact notation, expanded on both sides): the winner at signature / label
+    //      position 65 536, 65 537, 2*65 536+k (fixed for every seed) and random further ones; a worse-but-accepting or
+    //      rejecting entry, a filler entry or an empty label at the alias position modulo 65 536 ----
+    //      Cost: the model's association-list index makes one such TCP case take 2-7 s and an HTTP case with 65 536
+    //      signatures under ONE label about a minute (only four HTTP index buckets exist), so the latter runs in the
+    //      thorough tier only; the cases are spread over the whole list so that the parallel shards share them.
+    let mut wide: Vec<String> = vec![];
+    wide_tcp_cases(r, tier.scale(3, 8), tier.scale(3, 8), &mut wide);
+    wide_http_cases(r, tier.scale(0, 2), tier.scale(3, 8), &mut wide);
+    let step = out.len() / (wide.len() + 1);
+    for (i, w) in wide.into_iter().enumerate().rev() { out.insert((i + 1) * step, w); }
 }
 
 fn main() { main_cli(gen, run) }
